@@ -31,14 +31,14 @@ def enc(c, e):
     return enc8(c) if e == 8 else enc16(c) if e == 16 else [c]
 
 
-# ---- independent reference: structural well-formedness (Unicode table 3-7 without the surrogate exclusion,
-#      as the library's checks define it: shortest form, <= U+10FFFF; UTF-16 properly paired surrogates)
+# ---- independent reference: well-formedness as table 3-7 of the Unicode standard defines it (shortest form, <= U+10FFFF, no
+#      surrogate code points in UTF-8 or UTF-32; UTF-16 properly paired surrogates)
 def ref_next(u, i, e):
     """returns (scalar, length) if a well-formed character starts at i, 'trunc' if the units run out inside a sequence
     that is well-formed so far, None if ill-formed"""
     n = len(u)
     if e == 32:
-        return (u[i], 1) if u[i] < 0x110000 else None
+        return (u[i], 1) if u[i] < 0x110000 and not (0xD800 <= u[i] <= 0xDFFF) else None
     if e == 16:
         x = u[i]
         if x < 0xD800 or x > 0xDFFF: return (x, 1)
@@ -51,6 +51,7 @@ def ref_next(u, i, e):
     if b < 0x80: return (b, 1)
     if 0xC2 <= b <= 0xDF: need, lo, hi, v = 1, 0x80, 0xBF, b & 0x1F
     elif b == 0xE0: need, lo, hi, v = 2, 0xA0, 0xBF, 0
+    elif b == 0xED: need, lo, hi, v = 2, 0x80, 0x9F, 0x0D
     elif 0xE1 <= b <= 0xEF: need, lo, hi, v = 2, 0x80, 0xBF, b & 0x0F
     elif b == 0xF0: need, lo, hi, v = 3, 0x90, 0xBF, 0
     elif 0xF1 <= b <= 0xF3: need, lo, hi, v = 3, 0x80, 0xBF, b & 7
